@@ -400,3 +400,15 @@ def data_witness_probe(pid, classes=("Inventory", "InventoryHP")):
             if len(found) >= 3:
                 return found
     return found
+
+
+def replay_case(c, checker=None):
+    """re-run one recorded decay / cumulative case against the current tree (data set and class from the case)"""
+    ds = c.get("ds")
+    dsname = "Synth" if ds == "synth" else "Default"
+    chk = checker or (("check_hp_decay " if c.get("cls") == "InventoryHP" else "check_float_decay ") + dsname)
+    streams, viol, samples = {}, [], []
+    decay_stream(random.Random(0), [dict(c)], chk, "replay", streams, viol, samples, "replay", shard=1, ds=ds,
+                 pre=PRE.replace("Model.Default", "Model.Default Model.Synth"),
+                 py_pred=parent_tail_pred(ds) if c.get("cls") == "InventoryHP" else None)
+    return {"fails": bool(viol), "streams": streams, "violations": [v["payload"].get("fails") for v in viol]}
